@@ -222,6 +222,8 @@ def cases(tier):
     for kind in ("ft", "ftsh", "vk", "fried"):
         yield Case("distinct_seeds:%s" % kind, {"kind": "distinct", "what": kind})
     yield Case("unseeded_differ", {"kind": "unseeded"})
+    yield Case("unseeded_differ_in_sibling_processes", {"kind": "siblings"})
+    yield Case("seeded_reproducible_across_interpreters", {"kind": "interp"})
     for slot in LONG:
         yield Case("long_rows:%s" % slot, {"kind": "long", "slot": slot})
 
@@ -242,6 +244,7 @@ class _W(ss.World):
         st = numpy.random.get_state()
         c["numpy.global_rng"] = digest([st[0], st[1], st[2], st[3], st[4]])
         c["module_globals"] = ss.module_globals_digest(self.modules)
+        c["process_settings"] = ss.process_settings()
         return c
 
 
@@ -252,6 +255,10 @@ def evaluate(p):
         return _distinct(p["what"])
     if p["kind"] == "long":
         return _long(p["slot"])
+    if p["kind"] == "siblings":
+        return _siblings()
+    if p["kind"] == "interp":
+        return _interp()
     return _unseeded()
 
 
@@ -336,6 +343,7 @@ def _hist(p):
         others = [k for k in ss.changed(pre, post)
                   if k.startswith("obj:") and k != "obj:" + str(touched)]
         o.check("other_objects_untouched", not others, sub=sub, detail=others)
+        o.check("process_settings_untouched", pre.get("process_settings") == post.get("process_settings"), sub=sub)
 
     # Snapshots are OS processes (fork): the state reached by a history is the process that executed it, so
     # aliasing between a screen's generator and anything the library keeps in its modules survives - a deepcopy
@@ -529,3 +537,75 @@ def _replay_history(family, ops, clause):
         if pre["numpy.global_rng"] != post["numpy.global_rng"] and (op in FUNCS[family] and FUNCS[family][op][2] is not None):
             bad.append("step %d (%s): global RNG touched" % (k, op))
     return bool(bad), "history %s -> %s" % (ops, bad or "all seeded artefacts equal their isolated references")
+
+
+def _unseeded_digests():
+    from aotools.turbulence import phasescreen as ps
+    ft = (FTB["r0"], FTB["N"], FTB["delta"], FTB["L0"], FTB["l0"])
+    a = _new("vk", VKB, None)
+    a.add_row()
+    b = _new("fr", FRB, None)
+    b.add_row()
+    return {"ft": digest(ps.ft_phase_screen(*ft)), "ftsh": digest(ps.ft_sh_phase_screen(*ft)),
+            "vk": digest(numpy.array(a.scrn)), "fried": digest(numpy.array(b.scrn))}
+
+
+def _siblings():
+    """Schedules: processes forked from one parent that has already imported (and used) the library are the
+    usual way to generate screens in parallel; unseeded screens made by such siblings must differ from each other
+    (a generator created once at import, or in the parent, would be duplicated by fork)."""
+    from mc.isolate import isolated_map
+    o = Out()
+    _unseeded_digests()                      # the parent has used the library before forking
+    kids = isolated_map(_unseeded_digests, [() for _ in range(3)], jobs=3)
+    for name in ("ft", "ftsh", "vk", "fried"):
+        vals = [k[name] for k in kids]
+        o.check("unseeded_calls_differ", len(set(vals)) == len(vals), sub="%s:three_forked_siblings" % name,
+                detail=vals)
+    o.stat("lib_calls", 16)
+    return o
+
+
+_INTERP_SCRIPT = """
+import sys, json
+sys.path.insert(0, %r); sys.path.insert(0, %r)
+from mc import repo; repo.load()
+from checks import C06
+out = {}
+for fam, slot in (("main", "vk1"), ("main", "fr1"), ("main", "vkG")):
+    out[fam + ":" + slot] = [C06.digest(x) for x in C06._table_slot(fam, slot, 3)]
+for fam, op in (("main", "ft1"), ("main", "ftsh1"), ("main", "ftG")):
+    out[fam + ":" + op] = C06.digest(C06._table_func(fam, op))
+print("RESULT" + json.dumps(out))
+"""
+
+
+def _interp():
+    """Two reproductions in different interpreter runs: fresh `python` processes with different PYTHONHASHSEED
+    (string hashing is salted per process) must produce the bytes this process produces for the same seeds."""
+    import json
+    import os
+    import subprocess
+    import sys
+    from mc import repo
+    from mc.core import VERIF
+    o = Out()
+    mine = {}
+    for fam, slot in (("main", "vk1"), ("main", "fr1"), ("main", "vkG")):
+        mine[fam + ":" + slot] = [digest(x) for x in _TABLE[(fam, slot)][:4]]
+    for fam, op in (("main", "ft1"), ("main", "ftsh1"), ("main", "ftG")):
+        mine[fam + ":" + op] = digest(_TABLE[(fam, op)])
+    for hs in ("1", "987654"):
+        env = dict(os.environ, PYTHONHASHSEED=hs, AOTOOLS_REPO=repo.REPO)
+        r = subprocess.run([sys.executable, "-c", _INTERP_SCRIPT % (VERIF, repo.REPO)], env=env, capture_output=True,
+                           text=True, timeout=600)
+        line = [l for l in r.stdout.splitlines() if l.startswith("RESULT")]
+        if not line:
+            o.check("fresh_interpreter_runs", False, sub="PYTHONHASHSEED=" + hs, detail=(r.stdout + r.stderr)[-600:])
+            continue
+        theirs = json.loads(line[0][6:])
+        for k in sorted(mine):
+            o.check("seeded_artefact_equal_in_a_fresh_interpreter", theirs.get(k) == mine[k],
+                    sub="%s:PYTHONHASHSEED=%s" % (k, hs))
+        o.stat("lib_calls", 6)
+    return o
